@@ -14,8 +14,12 @@ package main
 // and out-of-order server msg ids, and a probe call at the end of every schedule.
 
 import (
+	"bytes"
+	"compress/flate"
+	"compress/gzip"
 	"encoding/binary"
 	"fmt"
+	"io"
 	"math/big"
 	"os"
 	"path/filepath"
@@ -811,6 +815,7 @@ type bodySpec struct {
 	inner *bodySpec
 	salt  int64
 	n     int // svc: index into serviceObjects; garbage: variant
+	gzbad string // "", or how the gzip stream of this gz / gz-packed result is damaged: crc | isize | deflate
 }
 
 type itemSpec struct {
@@ -926,6 +931,78 @@ func serviceBody(n int) svcBody {
 	return svcBodies[n%len(svcBodies)]
 }
 
+// badGzip is gzip_packed around body whose stream has a valid header and complete data but is damaged:
+//
+//	crc      the CRC-32 trailer has a flipped bit   (gzip.ErrChecksum after all data was delivered)
+//	isize    the ISIZE trailer has a flipped bit    (gzip.ErrChecksum as well)
+//	deflate  a byte in the middle of the deflate data is wrong: two stored blocks, the length check of the
+//	         second one fails (flate.CorruptInputError after the first half of the data)
+//
+// The library ignores the error of gzip.Reader.Read and stops at n <= 0, so for it the first two ARE the packed
+// object, and the third is the first half of it - an undecodable body. What a standard gzip reader makes of the
+// stream is checked here with compress/gzip (not with the repository's code).
+func badGzip(body []byte, variant string) []byte {
+	var buf bytes.Buffer
+	half := len(body) / 2
+	if half < 1 {
+		half = 1
+	}
+	switch variant {
+	case "crc", "isize":
+		w := gzip.NewWriter(&buf)
+		_, _ = w.Write(body)
+		_ = w.Close()
+	case "deflate":
+		w, _ := gzip.NewWriterLevel(&buf, gzip.NoCompression)
+		_, _ = w.Write(body[:half])
+		_ = w.Flush()
+		_, _ = w.Write(body[half:])
+		_ = w.Close()
+	default:
+		trouble("unknown gzip damage %q", variant)
+	}
+	gz := buf.Bytes()
+	switch variant {
+	case "crc":
+		gz[len(gz)-8] ^= 0x10
+	case "isize":
+		gz[len(gz)-4] ^= 0x01
+	case "deflate":
+		// header(10) | stored block: 1 + LEN(2) + NLEN(2) + half bytes | sync marker 00 00 00 ff ff | stored block ...
+		off := 10 + 5 + half + 5
+		if off+4 >= len(gz) {
+			trouble("unexpected layout of the stored gzip stream")
+		}
+		gz[off+3] ^= 0x55 // NLEN of the second data block
+	}
+	// what a standard reader sees
+	zr, err := gzip.NewReader(bytes.NewReader(gz))
+	if err != nil {
+		trouble("damaged gzip: header refused: %v", err)
+	}
+	out, err := io.ReadAll(zr)
+	switch variant {
+	case "crc", "isize":
+		if err != gzip.ErrChecksum || !bytes.Equal(out, body) {
+			trouble("damaged gzip (%s): want all data + checksum error, got %d bytes, %v", variant, len(out), err)
+		}
+	case "deflate":
+		if _, ok := err.(flate.CorruptInputError); !ok || !bytes.Equal(out, body[:half]) {
+			trouble("damaged gzip (deflate): want first half + corrupt input, got %d bytes, %v", len(out), err)
+		}
+	}
+	b := make([]byte, 4)
+	binary.LittleEndian.PutUint32(b, refserver.CrcGzipPacked)
+	return append(b, refserver.TLBytes(gz)...)
+}
+
+func (r *run) gzip(body []byte, damage string) []byte {
+	if damage == "" {
+		return refserver.Gzip(body)
+	}
+	return badGzip(body, damage)
+}
+
 // garbage bodies: nothing tl.DecodeUnknownObject accepts
 func garbageBody(n int) ([]byte, string) {
 	switch n % 5 {
@@ -958,7 +1035,11 @@ func (r *run) build(b *bodySpec) ([]byte, string, string, bool) {
 		}
 		body := resultBody(sp)
 		if b.gz {
-			body = refserver.Gzip(body)
+			body = r.gzip(body, b.gzbad)
+		}
+		if b.gz && b.gzbad == "deflate" {
+			// half a result: the whole rpc_result does not decode, nobody is answered
+			return refserver.RpcResult(id, body), "garbage", "rpc_result-gzip-corrupt-deflate", true
 		}
 		class := "rpc_result"
 		failing := false
@@ -988,8 +1069,16 @@ func (r *run) build(b *bodySpec) ([]byte, string, string, bool) {
 		}
 		return refserver.RpcResult(id, body), fmt.Sprintf("res %s %s %s %d", r.norm(id), b01(b.gz), b.kind, b.tok), class, failing
 	case "gz":
+		if b.gzbad == "deflate" {
+			// what is inside is never looked at: build it on a copy of the bookkeeping-free path
+			inner := r.buildQuiet(b.inner)
+			return badGzip(inner, "deflate"), "garbage", "gzip-corrupt-deflate", true
+		}
 		inner, txt, class, failing := r.build(b.inner)
-		return refserver.Gzip(inner), "gz " + txt, class, failing
+		if b.gzbad != "" {
+			class = "gzip-bad-" + b.gzbad + ":" + class
+		}
+		return r.gzip(inner, b.gzbad), "gz " + txt, class, failing
 	case "cont":
 		var msgs []refserver.Msg
 		txt := "cont " + strconv.Itoa(len(b.items))
@@ -1033,6 +1122,28 @@ func (r *run) build(b *bodySpec) ([]byte, string, string, bool) {
 	}
 	trouble("unknown body op %q", b.op)
 	return nil, "", "", false
+}
+
+// buildQuiet renders a body that the client will never get to see (it sits behind a stream that does not
+// unpack): none of the harness's bookkeeping (answers, rejections, salts, items) may change.
+func (r *run) buildQuiet(b *bodySpec) []byte {
+	nsent, nrej, nsalt := len(r.sent), len(r.rejections), len(r.saltsSent)
+	type snap struct {
+		cs *callState
+		a  int
+	}
+	var snaps []snap
+	for _, c := range r.callers {
+		for _, cs := range c.calls {
+			snaps = append(snaps, snap{cs, cs.answers})
+		}
+	}
+	body, _, _, _ := r.build(b)
+	r.sent, r.rejections, r.saltsSent = r.sent[:nsent], r.rejections[:nrej], r.saltsSent[:nsalt]
+	for _, sn := range snaps {
+		sn.cs.answers = sn.a
+	}
+	return body
 }
 
 func (r *run) doSrv(sid int64, seq int32, b *bodySpec) {
@@ -1090,6 +1201,11 @@ func (r *run) doRaw(variant string) {
 }
 
 func (b *bodySpec) script() string {
+	if b.gzbad != "" {
+		c := *b
+		c.gzbad = ""
+		return "badgz " + b.gzbad + " " + c.script()
+	}
 	g := b01(b.gz)
 	switch b.op {
 	case "res":
@@ -1135,6 +1251,14 @@ func parseBody(tok []string) (*bodySpec, []string) {
 	case "gz":
 		b.inner, tok = parseBody(tok)
 		return b, tok
+	case "badgz": // badgz <crc|isize|deflate> <gz ... | res ... 1 ... | err ... 1 ...>
+		variant := tok[0]
+		inner, rest := parseBody(tok[1:])
+		if inner.op != "gz" && !((inner.op == "res" || inner.op == "err") && inner.gz) {
+			trouble("badgz needs a gz body or a gzip-packed result")
+		}
+		inner.gzbad = variant
+		return inner, rest
 	case "cont":
 		n, _ := strconv.Atoi(tok[0])
 		tok = tok[1:]
